@@ -75,6 +75,11 @@ fn alphabet() -> Vec<Q> {
         r("RETURN 1 +\n2"),
         r("RETURN 1 + 2 AS s"),
         r("RETURN 1  +  2  AS  s"),
+        // backtick-quoted names: whitespace inside them is part of the name
+        r("RETURN 1 AS `a b`"),
+        r("RETURN 1 AS `a  b`"),
+        r("MATCH (n:P) RETURN n.`v w` AS x"),
+        r("MATCH (n:P) RETURN n.`v  w` AS x"),
         // writes
         w("CREATE (n:W {s: 'a b'})"),
         w("CREATE (n:W {s: 'a  b'})"),
@@ -95,6 +100,8 @@ fn fresh_store() -> GraphStore {
         let id = g.create_node("P");
         if let Some(n) = g.get_node_mut(id) {
             n.set_property("v", v);
+            n.set_property("v w", "one space");
+            n.set_property("v  w", "two spaces");
         }
     }
     g
